@@ -59,7 +59,8 @@ def getter_field(W, adt, getter):
 
 
 def deep_contains(W, t, pred, depth=0):
-    """contains(), also looking into the initial values of in-place mutated locals."""
+    """contains(), also looking into the initial values of in-place mutated locals and through crate-local helper
+    functions (their return term with the parameters bound to the call's arguments)."""
     if depth > 6:
         return False
     for s in values.subterms(t):
@@ -69,6 +70,10 @@ def deep_contains(W, t, pred, depth=0):
             if s[0] == "obj":
                 init = W.obj_init(s)
                 if init is not None and deep_contains(W, init, pred, depth + 1):
+                    return True
+            if s[0] == "call" and s[1] in W.prog.fns and depth < 4:
+                r = W.bind_params(W.ev(s[1]).ret(), s[1], list(s[2]))
+                if deep_contains(W, r, pred, depth + 1):
                     return True
     return False
 
@@ -228,11 +233,20 @@ def run(ctx):
     eev = W.ev(enew.path)
     EIN = flow.must_facts(enew, eev)
     env_reads = {}
-    for bb, t in enew.calls():
-        if strip_generics(t["fn"].get("path", "")).endswith("env::var"):
-            a = eev.call_args(bb)[0]
-            if a[0] == "str":
-                env_reads[a[1]] = bb
+    reach_e, _, _ = P.reach([enew.path])
+    for fp in sorted(reach_e):
+        f2 = P.fns[fp]
+        e2 = W.ev(fp)
+        for bb, t in f2.calls():
+            if strip_generics(t["fn"].get("path", "")).endswith("env::var"):
+                a = e2.call_args(bb)[0]
+                if a[0] == "str":
+                    env_reads[a[1]] = bb
+                elif a[0] == "param" and a[1] == fp:
+                    for (cp, cbb) in P.callers(fp):
+                        ca = W.ev(cp).call_args(cbb)
+                        if len(ca) >= a[2] and ca[a[2] - 1][0] == "str":
+                            env_reads[ca[a[2] - 1][1]] = cbb
     for k, envname, need in rows:
         ctx.check("key-names", "env/%s" % k, envname in env_reads, "EnvironmentConfig reads %s" % envname,
                   "EnvironmentConfig never reads the documented variable %s (it reads %s)" % (envname, sorted(x for x in env_reads if k.upper() in x) or "nothing similar"), ctx.loc(enew))
@@ -268,6 +282,55 @@ def run(ctx):
         gf, gr = getter_field(W, MEM, GETTER[k])
         ctx.check("wiring", "memory/%s" % k, gf is not None or (gr is not None and gr[0] in ("agg", "enum", "int", "call", "phi")), "MemoryConfig::%s returns %s" % (GETTER[k], gf or fmt(gr)),
                   "MemoryConfig::%s returns %s" % (GETTER[k], fmt(gr) if gr else None), nontrivial=False)
+
+    # ------------------------------------------------------------------ unparsable values must refuse the start, not fall back
+    SWALLOW = ("ok", "unwrap_or", "unwrap_or_default", "unwrap_or_else", "map_or", "is_ok", "is_err", "and_then", "or")
+    nparse = 0
+    for root in (enew.path, fnew.path):
+        reach_l, _, _ = P.reach([root])
+        for fp in sorted(reach_l):
+            f2 = P.fns[fp]
+            if f2.kind == "closure":
+                continue
+            e2 = W.ev(fp)
+            for bb, t in f2.calls():
+                n = callee_name(t["fn"].get("path", ""))
+                if not (n == "parse" and "str" in t["fn"].get("path", "")) and not (n == "try_from" and "i64" in str(t["fn"].get("substs", ""))) and not (n in ("try_from", "try_into") and "num" in t["fn"].get("path", "")):
+                    continue
+                nparse += 1
+                res = e2.call_term(bb)
+                # how is this Result consumed?
+                verdict = None
+                for b2, t2 in f2.calls():
+                    a2 = e2.call_args(b2)
+                    if a2 and (a2[0] == res) and b2 != bb:
+                        n2 = callee_name(t2["fn"].get("path", ""))
+                        if n2 in ("unwrap", "expect", "branch", "map_err"):
+                            verdict = verdict or "enforced"
+                        elif n2 == "unwrap_or_else":
+                            clos = [c for c in t2.get("closures", []) if not c.startswith("fn:")]
+                            div = bool(clos) and all(c in P.fns and not P.fns[c].exits() or (c in P.fns and set(P.fns[c].reachable()) <= P.fns[c].diverging() | set()) for c in clos)
+                            verdict = "enforced" if div else "swallowed by unwrap_or_else with a non-panicking fallback"
+                        elif n2 in SWALLOW:
+                            verdict = "swallowed by .%s()" % n2
+                if verdict is None:
+                    r = e2.ret()
+                    if values.contains(r, lambda s2: s2 == res) or r == res:
+                        verdict = "enforced"      # returned to the caller (checked there: helper results are inlined above)
+                    else:
+                        # matched on: Err arm must diverge or return Err
+                        verdict = "enforced" if any(isinstance(x, tuple) for x in ()) else "unknown"
+                        IN2 = flow.must_facts(f2, e2)
+                        for bl2 in f2.blocks:
+                            tt = bl2.term
+                            if tt["k"] == "switch":
+                                c = e2.op(tt["op"], (bl2.idx, "term"))
+                                if c == ("discr", res):
+                                    verdict = "matched"
+                ctx.check("unparsable-refused", "%s/%s@%s" % (fp.split("::", 2)[-1], n, e2.call_args(bb)[0][0] if e2.call_args(bb) else ""), verdict in ("enforced", "matched"),
+                          "a value that does not parse / fit aborts the start (%s)" % verdict,
+                          "a configuration value that does not parse or fit its type is silently replaced by the default: the conversion error is %s" % verdict, f2.loc(bb))
+    ctx.floor("unparsable-refused", nparse, 2, "parse / try_from conversions in the two loaders")
 
     # ------------------------------------------------------------------ range checks
     iv = ctx.fn("roughenough::config::is_valid_config")
